@@ -84,7 +84,8 @@ EXTRA = {
  "C01": "A memory-only pass (MemoryFS, altroots over it) adds thousands of cheap histories; one universe in three is built around a name family (a / a.b / 'a b' / a-1 ...: names whose text extends a sibling's).",
  "C02": "Write sessions include seeks, in-place overwrites and intermediate flushes (append sessions stay seek-free: O_APPEND differs by design).",
  "C04": "Contents include shaped data (zero runs at block boundaries, repeated blocks, block-structured multiples of 512..65536 bytes); after a copy, a further write session on either name must leave the other file untouched.",
- "C05": "Plus a probe of filesystems whose root directory is absent (root removed while empty, altroot directory removed underneath or never created, overlay with a missing lower layer): the observers must tell one story about the root there too.",
+ "C06": "Equality is also checked for derived paths: root() and parent() of same-string paths on two filesystem instances must compare unequal, root() must equal the instance's own root.",
+ "C05": "Plus a probe of filesystems whose root directory is absent (root removed while empty, altroot directory removed underneath or never created, overlay with a missing lower layer): the observers must tell one story about the root there too. And a walk-with-bystanders probe: a directory the walk has yielded is removed before the walk descends into it; everything outside it must still be yielded exactly once, after its parent.",
  "C07": "Transfers that C01 leaves unspecified (wrong-typed source, the altroot's root as source) are run as the last step of a history with the no-panic, confinement and view monitors only; a panic where the underlying twin returns is a C07 violation.",
  "C09": "Plus a directed probe of the marker-naming clash of sibling pairs (n, n_wo) (known finding KF3).",
  "C10": "Plus a probe that addresses the bookkeeping itself (/.whiteout, marker directories, marker files) after removals and then calls mutators on those addresses: nothing of it may be observable and nothing removed may come back (known finding KF4).",
